@@ -388,7 +388,9 @@ func (sr *syncRun) nodeBytes(h util.Uint256) []byte {
 func (sr *syncRun) feedNodes() bool {
 	r := sr.r
 	m := sr.module()
-	unk := m.GetUnknownMPTNodesBatch(sr.sp.ReqLimit)
+	// the pool hands out the first ReqLimit entries of a Go map, an arbitrary subset: the harness asks for all of
+	// them and lets the tape choose the subset and its order, so that the run is a function of the plan
+	unk := m.GetUnknownMPTNodesBatch(1 << 20)
 	if len(unk) == 0 {
 		sim.Harnessf("storage data needed but nothing unknown")
 	}
@@ -397,6 +399,9 @@ func (sr *syncRun) feedNodes() bool {
 	for i := len(unk) - 1; i > 0; i-- {
 		j := r.tape.Choose(i + 1)
 		unk[i], unk[j] = unk[j], unk[i]
+	}
+	if len(unk) > sr.sp.ReqLimit {
+		unk = unk[:sr.sp.ReqLimit]
 	}
 	if len(unk) > sr.sp.NodeBatch {
 		unk = unk[:sr.sp.NodeBatch]
